@@ -68,6 +68,9 @@ type imgCase struct {
 	// BlocksOnlyOverwrite (set by the generator when sigBlocksExtents is a listed finding): POST blocks is only
 	// aimed at blocks already visible at the node (so inside the advertised extents); otherwise the op runs as POST raw.
 	BlocksOnlyOverwrite bool `json:"blocks_only_overwrite,omitempty"`
+	// BlockReadsOnly (set by the generator when sigRawBackground is a listed finding and the background is
+	// non-zero): no GET raw over unwritten voxels; the read-back of a write uses raw only if the whole box is written.
+	BlockReadsOnly bool `json:"block_reads_only,omitempty"`
 	Ops  []imgOp    `json:"ops"`
 }
 
@@ -615,7 +618,20 @@ func clampSpan(s [3]int32) [3]int32 {
 	return s
 }
 
+// runImg executes a case.  Messages are made deterministic (server-chosen UUIDs replaced by node ordinals) so
+// that rapid recognises the same failure while shrinking.
 func runImg(c imgCase) (*caseInfo, error) {
+	var w *world
+	info, err := runImg1(c, &w)
+	if v, ok := err.(*stats.Violation); ok && w != nil {
+		for i, u := range w.uuid {
+			v.Msg = strings.ReplaceAll(v.Msg, u, fmt.Sprintf("<node%d>", i))
+		}
+	}
+	return info, err
+}
+
+func runImg1(c imgCase, wp **world) (*caseInfo, error) {
 	info := &caseInfo{classes: map[string]bool{}}
 	bpv, ok := bytesPerVoxel[c.Type]
 	if !ok || c.BS[0] < 1 || c.BS[1] < 1 || c.BS[2] < 1 {
@@ -642,6 +658,7 @@ func runImg(c imgCase) (*caseInfo, error) {
 	}
 	w := &world{c: c, bpv: bpv, root: root, m: model.NewImageVol(c.BS, bpv, bg), uuid: []string{root}, locked: []bool{false},
 		branch: []string{""}, kids: map[int]map[string]bool{}, seen: map[[3]int32]bool{}, inROI: map[[3]int32]bool{}, info: info}
+	*wp = w
 	if len(c.ROI) > 0 {
 		if err := drive.NewInstance(root, "roi", roiName, map[string]string{"BlockSize": bsStr}); err != nil {
 			return info, fmt.Errorf("setup roi: %v", err)
@@ -776,8 +793,10 @@ func runImg(c imgCase) (*caseInfo, error) {
 					}
 				}
 			}
-			if err := w.readBox3d(v, off, size, what+" read-back", false); err != nil {
-				return info, err
+			if !(c.BlockReadsOnly && nOut > 0) {
+				if err := w.readBox3d(v, off, size, what+" read-back", false); err != nil {
+					return info, err
+				}
 			}
 		case "newversion", "branch":
 			u := op.Node % w.m.DAG.N()
@@ -945,15 +964,18 @@ func genBlk(t *rapid.T, label string) [3]int32 {
 }
 
 func genDelta(t *rapid.T, bs int32, label string) int32 {
-	if rapid.Bool().Draw(t, label+"edge") {
-		return rapid.SampledFrom([]int32{0, 0, -1, 1, bs - 1, -bs, -bs + 1, bs, -bs - 1, bs / 2}).Draw(t, label)
+	switch rapid.IntRange(0, 5).Draw(t, label+"k") {
+	case 0, 1, 2: // at or next to the block's faces
+		return rapid.SampledFrom([]int32{0, 0, -1, 1, -2, bs - 1, bs - 2, bs / 2, -bs + 1, -bs, bs}).Draw(t, label)
+	case 3, 4: // anywhere from just before the block to its far face
+		return rapid.Int32Range(-3, bs).Draw(t, label)
 	}
 	return rapid.Int32Range(-bs-2, bs+1).Draw(t, label)
 }
 
 func genSize(t *rapid.T, bs int32, label string) int32 {
 	if rapid.Bool().Draw(t, label+"edge") {
-		return rapid.SampledFrom([]int32{1, 1, 2, bs - 1, bs, bs + 1, 2 * bs, 2*bs + 1}).Draw(t, label)
+		return rapid.SampledFrom([]int32{1, 2, 3, bs - 1, bs, bs + 1, bs + 2, 2 * bs, 2*bs + 1}).Draw(t, label)
 	}
 	return rapid.Int32Range(1, 2*bs+3).Draw(t, label)
 }
@@ -979,7 +1001,7 @@ func genROI(t *rapid.T) [][4]int32 {
 	return spans
 }
 
-var opKinds = []string{"raw", "raw", "raw", "raw", "blocks", "newversion", "newversion", "branch",
+var opKinds = []string{"raw", "raw", "raw", "raw", "blocks", "blocks", "newversion", "newversion", "branch",
 	"read3d", "read3d", "read3d", "slice", "slice", "slice", "roiread", "getblocks", "subvol", "subvol", "specific", "info"}
 
 func genImgCase(t *rapid.T) imgCase {
@@ -1009,19 +1031,12 @@ func genImgCase(t *rapid.T) imgCase {
 			}
 		}
 		kinds = ks
+		c.BlockReadsOnly = true
 		stats.Excluded(sigRawBackground)
 	}
-	nops := rapid.IntRange(3, 14).Draw(t, "nops")
-	hasBlocks := false
-	for i := 0; i < nops; i++ {
+	// one op = one element of a rapid slice, so that shrinking can delete whole ops
+	opGen := rapid.Custom(func(t *rapid.T) imgOp {
 		op := imgOp{Kind: rapid.SampledFrom(kinds).Draw(t, "kind"), Node: rapid.IntRange(0, 7).Draw(t, "node"), Anchor: -1}
-		if i == 0 {
-			op.Kind = "raw" // every history starts with data
-		}
-		if op.Kind == "blocks" && bpv > 1 && stats.IsKnown(sigBlocksMultibyte) {
-			op.Kind = "raw"
-			stats.Excluded(sigBlocksMultibyte)
-		}
 		switch op.Kind {
 		case "raw", "blocks":
 			op.Blk = genBlk(t, "w")
@@ -1034,12 +1049,9 @@ func genImgCase(t *rapid.T) imgCase {
 			}
 			op.Span = [3]int32{rapid.Int32Range(1, 3).Draw(t, "sx"), rapid.Int32Range(1, 2).Draw(t, "sy"), rapid.Int32Range(1, 2).Draw(t, "sz")}
 			op.Mutate = rapid.Bool().Draw(t, "mutate")
-			op.ROI = len(c.ROI) > 0 && op.Kind == "raw" && rapid.Bool().Draw(t, "useroi")
+			op.ROI = rapid.Bool().Draw(t, "useroi") && len(c.ROI) > 0 && op.Kind == "raw"
 			op.Seed = rapid.Uint64().Draw(t, "seed")
 			op.Fill = rapid.SampledFrom([]int{0, 0, 0, 1, 2}).Draw(t, "fill")
-			if op.Kind == "blocks" {
-				hasBlocks = true
-			}
 		case "newversion", "branch", "info":
 		case "read3d", "roiread", "slice":
 			op.Anchor = rapid.IntRange(-1, 7).Draw(t, "anchor")
@@ -1047,27 +1059,78 @@ func genImgCase(t *rapid.T) imgCase {
 			for a := 0; a < 3; a++ {
 				op.D[a] = genDelta(t, c.BS[a], fmt.Sprintf("d%d", a))
 			}
+			var sz [3]int32 // per volume axis
 			if op.Kind == "slice" {
 				op.Plane = rapid.IntRange(0, 2).Draw(t, "plane")
 				ax := planeAxes[op.Plane]
-				op.Size = [3]int32{genSize(t, c.BS[ax[0]], "w"), genSize(t, c.BS[ax[1]], "h"), 1}
+				sz = [3]int32{1, 1, 1}
+				sz[ax[0]], sz[ax[1]] = genSize(t, c.BS[ax[0]], "w"), genSize(t, c.BS[ax[1]], "h")
 			} else {
 				for a := 0; a < 3; a++ {
-					op.Size[a] = genSize(t, c.BS[a], fmt.Sprintf("s%d", a))
+					sz[a] = genSize(t, c.BS[a], fmt.Sprintf("s%d", a))
 				}
+			}
+			if rapid.IntRange(0, 5).Draw(t, "far") > 0 {
+				// the box meets the base block on every axis (by construction): start no later than the block's last
+				// voxel, and reach at least its first
+				for a := 0; a < 3; a++ {
+					if op.D[a] >= c.BS[a] {
+						op.D[a] = c.BS[a] - 1
+					}
+					if op.D[a]+sz[a] <= 0 {
+						if op.Kind == "slice" && sz[a] == 1 && a != planeAxes[op.Plane][0] && a != planeAxes[op.Plane][1] {
+							op.D[a] = 0 // the slice's fixed coordinate: move it into the block
+						} else {
+							sz[a] += -op.D[a]
+						}
+					}
+				}
+			}
+			if op.Kind == "slice" {
+				ax := planeAxes[op.Plane]
+				op.Size = [3]int32{sz[ax[0]], sz[ax[1]], 1}
+			} else {
+				op.Size = sz
 			}
 		case "getblocks", "subvol", "specific":
 			op.Anchor = rapid.IntRange(-1, 7).Draw(t, "anchor")
 			op.Blk = genBlk(t, "r")
 			op.D = [3]int32{rapid.Int32Range(-2, 1).Draw(t, "bdx"), rapid.Int32Range(-1, 1).Draw(t, "bdy"), rapid.Int32Range(-1, 1).Draw(t, "bdz")}
-			op.Span = [3]int32{rapid.Int32Range(1, 4).Draw(t, "sx"), rapid.Int32Range(1, 2).Draw(t, "sy"), rapid.Int32Range(1, 2).Draw(t, "sz")}
+			op.Span = [3]int32{rapid.SampledFrom([]int32{1, 1, 2, 3, 4}).Draw(t, "sx"), rapid.SampledFrom([]int32{1, 1, 2}).Draw(t, "sy"), rapid.SampledFrom([]int32{1, 1, 2}).Draw(t, "sz")}
 			if op.Kind == "specific" {
-				for n := rapid.IntRange(0, 5).Draw(t, "nextra"); n > 0; n-- {
-					op.Extra = append(op.Extra, [3]int32{rapid.Int32Range(-2, 2).Draw(t, "ex"), rapid.Int32Range(-1, 1).Draw(t, "ey"), rapid.Int32Range(-1, 1).Draw(t, "ez")})
-				}
+				op.Extra = rapid.SliceOfN(rapid.Custom(func(t *rapid.T) [3]int32 {
+					return [3]int32{rapid.Int32Range(-2, 2).Draw(t, "ex"), rapid.Int32Range(-1, 1).Draw(t, "ey"), rapid.Int32Range(-1, 1).Draw(t, "ez")}
+				}), 0, 5).Draw(t, "extra")
 			}
 		}
-		c.Ops = append(c.Ops, op)
+		return op
+	})
+	// every history starts with data: a first write, then the generated ops
+	first := imgOp{Kind: "raw", Anchor: -1, Blk: genBlk(t, "w0"),
+		Span:   [3]int32{rapid.Int32Range(1, 3).Draw(t, "sx0"), rapid.Int32Range(1, 2).Draw(t, "sy0"), rapid.Int32Range(1, 2).Draw(t, "sz0")},
+		Mutate: rapid.Bool().Draw(t, "mutate0"),
+		ROI:    rapid.IntRange(0, 3).Draw(t, "useroi0") == 0 && len(c.ROI) > 0,
+		Seed:   rapid.Uint64().Draw(t, "seed0"),
+		Fill:   rapid.SampledFrom([]int{0, 0, 0, 1, 2}).Draw(t, "fill0")}
+	if !neg {
+		for a := range first.Blk {
+			if first.Blk[a] < 0 {
+				first.Blk[a] = -first.Blk[a]
+			}
+		}
+	}
+	c.Ops = append([]imgOp{first}, rapid.SliceOfN(opGen, 2, 20).Draw(t, "ops")...)
+	hasBlocks := false
+	for i := range c.Ops {
+		if c.Ops[i].Kind != "blocks" {
+			continue
+		}
+		if bpv > 1 && stats.IsKnown(sigBlocksMultibyte) {
+			c.Ops[i].Kind = "raw"
+			stats.Excluded(sigBlocksMultibyte)
+			continue
+		}
+		hasBlocks = true
 	}
 	if hasBlocks && stats.IsKnown(sigBlocksExtents) {
 		// POST blocks does not extend the extents: aim it only at blocks that are already visible (and so inside
@@ -1086,6 +1149,7 @@ func TestC17Volume(t *testing.T) {
 		if !stats.Judge(t, "C17", "TestC17Volume", err, c) {
 			return
 		}
+		stats.Count("ops_executed", int64(len(c.Ops)))
 		cls := []string{"type/" + c.Type, fmt.Sprintf("bs/%d,%d,%d", c.BS[0], c.BS[1], c.BS[2])}
 		if c.BS[0] != c.BS[1] || c.BS[1] != c.BS[2] {
 			cls = append(cls, "noncubic")
